@@ -150,6 +150,14 @@ def api_level(op: str, sign: bool, action: str, flavour: str) -> tuple[str, str]
             return
 
         def mangle(kind: str, reply: bytes, cc: refdc.Connection) -> bytes:
+            if action.startswith("downgrade_bind"):
+                # a party without the session key answers the authenticated bind itself: bind_ack / alter_context_resp with
+                # the verifier removed (auth_len 0), then a cleartext RESPONSE with its own stub for whatever is asked
+                h = refdc.parse_header(reply)
+                if kind in ("bind_ack", "alter_resp"):
+                    body = reply[16 : h["frag_len"] - h["auth_len"] - (8 if h["auth_len"] else 0)]
+                    return refdc.finish_pdu(h["ptype"], h["flags"], h["call_id"], body)
+                return refdc.finish_pdu(refdc.PT_RESPONSE, 3, h["call_id"], refdc.response_body(evil_stub(reply)))
             if kind != "response":
                 return reply
             if action == "pass":
@@ -269,7 +277,8 @@ def run(ctx: Ctx) -> int:
     # whole API: protect / unprotect must never use key material of a party without the session key
     for op in ("unprotect", "protect"):
         for sign in (True, False):
-            for action in ("pass", "strip", "inject_clear_seed", "inject_clear_pub", "inject_bogus_trailer_seed", "inject_bogus_trailer_pub", "fault"):
+            for action in ("pass", "strip", "inject_clear_seed", "inject_clear_pub", "inject_bogus_trailer_seed", "inject_bogus_trailer_pub", "fault",
+                           "downgrade_bind_seed", "downgrade_bind_pub"):
                 for flavour in ("sync", "async"):
                     out, detail = api_level(op, sign, action, flavour)
                     LAST_CALL[0] = lambda op=op, sign=sign, action=action, flavour=flavour: api_level(op, sign, action, flavour)[0]
